@@ -310,7 +310,7 @@ def replay_one(ctx, case, expect_slug=None):
 
 
 def run(ctx):
-    ctx.cov["rule"] = ("scenario family: 1-3 edited files x 0-2 renames (nested directory pair, file edited and renamed, modes, "
+    ctx.cov["rule"] = ("scenario family: 1-3 edited files x 0-2 renames (nested directory pair, file edited and renamed, renamed symlinks incl. a dangling one, modes, "
                        "multi-byte text) x {rename -y, plan+apply, redo, replace} x {fresh, one earlier history entry}; for each "
                        "scenario EVERY mutating libc call of the real trace fails once (errno EIO; thorough: EIO, ENOSPC, EACCES); "
                        "plus stale-plan perturbations (edited, truncated, deleted, latin-1, replaced by a directory, destination "
@@ -333,7 +333,7 @@ def run(ctx):
         ctx.broke("build", "cargo", msg)
         return
     fam = [s for s in F.family(True) if s["cmd"] != "undo"]
-    scs = fam if ctx.thorough else fam[:4]
+    scs = fam if ctx.thorough else fam[:5]
     errnos = ERRNOS_THOROUGH if ctx.thorough else ERRNOS_QUICK
     with Pool(16) as pool:
         run_corpus(ctx, pool, {s["name"]: s for s in fam})
